@@ -5,11 +5,12 @@ COMMON = ['harness/common/vh.c']
 HARNESS = {
     'bits': dict(srcs=['harness/corelab/bits.c'] + COMMON),
     'block': dict(srcs=['harness/corelab/block.c'] + COMMON),
+    'picsound': dict(srcs=['harness/corelab/picsound.c', 'harness/common/cumem.c'] + COMMON),
 }
 
 ENGINES = [
     dict(name='corelab', path='harness/corelab',
-         serves_properties=['C18'],
+         serves_properties=['C02', 'C03', 'C10', 'C11', 'C18', 'C19'],
          kind_free_text='model-based runtime monitors for core data '
                         'structures: after every API call the real object is '
                         'compared with a reference model; ASan/UBSan build'),
@@ -48,8 +49,8 @@ PROPS['C18'] = dict(
         'UBSan shift reports are diagnostics; a wrong byte is the violation',
     ],
     jobs=[
-        dict(name='bits', bin='bits', variant='asan', quick=400000,
-             thorough=30000000,
+        dict(name='bits', bin='bits', variant='asan', quick=3000000,
+             thorough=100000000,
              require=['write.fits', 'write.too_small', 'get.overflow_seen',
                       'stream.multiseg', 'stream.overflow_seen']),
     ],
@@ -79,8 +80,70 @@ PROPS['C03'] = dict(
                  '(adopted by the model)'],
     jobs=[
         dict(name='block', bin='block', variant='asan', mode='c03',
-             quick=40000, thorough=2000000,
+             quick=300000, thorough=6000000,
              require=['battery.on_3plus_segments', 'acc.peek_bounce',
                       'op.prepend_ok', 'ood.error', 'acc.find']),
+    ],
+)
+
+PROPS['C19'] = dict(
+    engine='corelab',
+    technique='runtime monitoring: position-coded content + per-handle model '
+              'in absolute coordinates, acceptance oracle for windows, canary '
+              'guard zones and AddressSanitizer, over all standard picture '
+              'formats and random sound formats',
+    level_text='Randomised model-based testing over the 48 standard picture '
+               'formats x sizes x margins x alignment and planar/packed sound '
+               'formats: every accepted window is bounds-checked against the '
+               'allocation and compared with a model that follows crops / '
+               'extensions / dups; invalid windows must be refused.',
+    level_note=SAN_NOTE + 'Reference acceptance predicate taken from the '
+               'documented rules of ubuf_pic.h / ubuf_sound.h; zero-size '
+               'windows are not judged.',
+    rule='case = one buffer family (format, size, manager config) + 12 '
+         'operations (windows valid and invalid, dup, resize chains, block '
+         're-export, free); distinct = hash of configuration and operation '
+         'sequence; every case is non-trivial (>= 1 window compared)',
+    assumptions=['manager margins are always given explicitly (the default '
+                 'values are private to the implementation)'],
+    jobs=[
+        dict(name='picsound', bin='picsound', variant='asan', mode='c19',
+             quick=150000, thorough=4000000,
+             require=['pic.write_windows', 'pic.resize_extended',
+                      'pic.resize_cropped', 'snd.write_windows', 'snd.resize',
+                      'pic.invalid_window.granularity',
+                      'pic.invalid_window.exceeds',
+                      'pic.invalid_window.before-origin']),
+    ],
+)
+
+PROPS['C02'] = dict(
+    engine='corelab',
+    technique='runtime monitoring: per-handle content models re-compared '
+              'after every operation on any handle of a sharing family; every '
+              'granted write mapping is used; ASan build',
+    level_text='Randomised black-box isolation testing of block, picture and '
+               'sound buffers that share memory (dup, splice, split, slice-'
+               'inducing insert/delete, uref_dup, picture/sound re-exported '
+               'as blocks): every granted write mapping is overwritten with '
+               'fresh data and all sibling handles are re-read; fresh memory '
+               'must be writable, a just-duplicated handle must be refused.',
+    level_note=SAN_NOTE + 'No white-box owner count is modelled: a refusal on '
+               'data that only looks unshared is not a violation.',
+    rule='case = family of up to 8 handles and 25 operations (block) or one '
+         'picture/sound family and 12 operations; distinct = hash of the '
+         'operation sequence; every case runs >= 1 sibling comparison',
+    assumptions=['write refusals are only demanded right after a dup with '
+                 'both handles alive; grants only on memory never shared'],
+    jobs=[
+        dict(name='block', bin='block', variant='asan', mode='c02',
+             quick=100000, thorough=3000000,
+             require=['c02.write_granted', 'c02.write_refused',
+                      'c02.refusal_checked']),
+        dict(name='picsound', bin='picsound', variant='asan', mode='c02',
+             quick=30000, thorough=1000000,
+             require=['pic.write_windows', 'c02.pic_refusal_checked',
+                      'c02.snd_refusal_checked', 'pic.block_from_pic',
+                      'snd.block_from_sound']),
     ],
 )
